@@ -21,6 +21,9 @@ func main() {
 	if len(os.Args) < 2 {
 		usage()
 	}
+	if r := os.Getenv("AKVERIF_REPO"); r != "" {
+		repoDir = r
+	}
 	switch os.Args[1] {
 	case "check":
 		os.Exit(cmdCheck(os.Args[2:]))
@@ -87,6 +90,7 @@ type checkRun struct {
 	ld      *Loaded
 	results []*fnResult
 	kf      []knownFinding
+	noEvidence bool
 }
 
 func cmdCheck(args []string) int {
@@ -95,6 +99,7 @@ func cmdCheck(args []string) int {
 	verbose := fs.Bool("v", false, "verbose")
 	only := fs.String("only", "", "only functions whose key contains this string")
 	dump := fs.String("dump", "", "dump queries of obligations whose name contains this string to /verif/out/dump")
+	noEv := fs.Bool("no-evidence", false, "do not write the evidence file (self-test runs against scratch copies)")
 	if len(args) < 1 {
 		usage()
 	}
@@ -108,6 +113,7 @@ func cmdCheck(args []string) int {
 	}
 	start := time.Now()
 	run := &checkRun{id: id, tier: *tier, timeout: 10, verbose: *verbose}
+	defer func() { _ = noEv }()
 	if *tier == "thorough" {
 		run.timeout = 60
 	}
@@ -182,6 +188,7 @@ func cmdCheck(args []string) int {
 	// solve
 	obres := run.solveAll(*dump)
 	wall := time.Since(start).Seconds()
+	run.noEvidence = *noEv
 	return run.report(obres, undecided, wall)
 }
 
